@@ -107,8 +107,9 @@ type Sim struct {
 	pctLow      int
 	delays      []*delayRule
 	delayedTill map[*Task]int
-	PermuteMaps bool // map iteration order is drawn from the tape
-	AutoAdvance bool // when nothing is runnable, jump the clock to the next timer
+	PermuteMaps bool   // map iteration order is drawn from the tape
+	LoopOverrun string // set when a task exhausted its loop budget (where)
+	AutoAdvance bool   // when nothing is runnable, jump the clock to the next timer
 
 	muOwner map[any]*Task
 	rwRead  map[any]int
@@ -529,6 +530,7 @@ func Tick(where string) {
 		t.tick++
 		if t.tick > tickLimit {
 			t.tick = 0
+			s.LoopOverrun = where // survives a recover() in the code under test
 			panic(UnboundedLoop{where})
 		}
 		return
